@@ -16,8 +16,10 @@ pub mod c09;
 pub mod c10;
 pub mod c11;
 pub mod c12;
+pub mod c14;
 pub mod c15;
 pub mod c16;
+pub mod c17;
 pub mod c18;
 pub mod c19;
 pub mod fmode;
@@ -33,6 +35,8 @@ pub struct CheckOut {
     /// reach probes hit in this run
     pub probes: BTreeMap<String, u64>,
     pub sample: Option<serde_json::Value>,
+    /// fault-enumeration checks: (cases evaluated, distinct non-trivial cases) of this run
+    pub cases: Option<(u64, u64)>,
 }
 
 impl CheckOut {
@@ -83,7 +87,7 @@ pub const REAL_C: &str = "real code: roughenough-client main() (clap parsing, re
 pub const STUB: &str = "stubs: kernel (UDP sockets, SO_REUSEPORT groups, epoll edge semantics, TCP accept queue, port table), mio/mio-extras/net2/ctrlc/simple_logger glue, wall and monotonic clocks, OS entropy (ring SystemRandom, rand thread_rng/from_entropy), std thread/Mutex/process/env/fs::File, ahash keys";
 
 pub fn registry() -> Vec<Property> {
-    vec![c01::property(), c02::property(), c03::property(), c07::property(), c08::property(), c09::property(), c10::property(), c11::property(), c12::property(), c15::property(), c16::property(), c18::property(), c19::property(), c20::property()]
+    vec![c01::property(), c02::property(), c03::property(), c07::property(), c08::property(), c09::property(), c10::property(), c11::property(), c12::property(), c14::property(), c15::property(), c16::property(), c17::property(), c18::property(), c19::property(), c20::property()]
 }
 
 pub fn find(id: &str) -> Option<Property> {
